@@ -59,6 +59,10 @@ Proof. exact promoted_refused_fixed. Qed.
 Theorem C08_panic_sites_covered : panics_covered = true /\ recovers_covered = true /\ non_response_covered = true.
 Proof. vm_compute. repeat split; reflexivity. Qed.
 
+(** the undo closures (run under the changer's non re-entrant lock) call only non-journaling setters *)
+Theorem C08_reverts_covered : reverts_covered = true.
+Proof. vm_compute. reflexivity. Qed.
+
 Theorem C08_total_b_spec : forall k, total_b k = true <->
   exists o, dc_obs k = OReceipts o true true /\ List.length o = List.length (dc_txs k).
 Proof. exact total_b_spec. Qed.
@@ -80,6 +84,12 @@ Proof. exact checkproof_nil_err_refuted. Qed.
 Theorem C08_nil_validator_refuted :
   exec_block with_nilval 7 [{| dt_proof := PfValidatorNil; dt_sig_ok := true; dt_body := BIbtp BOk; dt_fee_ok := true |}] = Crash.
 Proof. exact nil_validator_refuted. Qed.
+
+Theorem C08_code_revert_refuted :
+  exec_block with_coderevert 7 [plain (BXvmDeploy true) false] = Hang /\
+  exec_block with_coderevert 7 [plain (BXvmDeploy true) true] = Ret ([Some true], 8) /\
+  exec_block dcfg_fixed 7 [plain (BXvmDeploy true) false] = Ret ([Some false], 8).
+Proof. exact code_revert_refuted. Qed.
 
 Theorem C08_nil_address_refuted :
   exec_block with_niladdr 7 [plain BNilTo true] = Crash /\ exec_block with_niladdr 7 [plain BNilFrom true] = Crash.
